@@ -15,14 +15,26 @@ def flavours():
     return {"vanilla": fl.VanillaFlavour, "nv": fl.NVFlavour, "reids": fl.REIDSFlavour}
 
 
+_LONG_LIVED = {}
+
+
 def flavour_obj(name: str):
+    """Long-lived flavour objects, created once in the order vanilla, nv, reids (a controller keeps its flavour
+    object for its whole life while other flavours come and go in the same process)."""
+    if not _LONG_LIVED:
+        for n in ("vanilla", "nv", "reids"):
+            _LONG_LIVED[n] = flavours()[n]()
+    return _LONG_LIVED[name]
+
+
+def fresh_flavour(name: str):
     return flavours()[name]()
 
 
 def flavour_classes(name: str) -> list:
     """Instruction classes the working tree declares for the flavour (core + flavour specific)."""
     from netqasm.lang.instr import flavour as fl
-    f = flavour_obj(name)
+    f = fresh_flavour(name)
     return list(fl.CORE_INSTRUCTIONS) + list(f.instrs)
 
 
